@@ -111,6 +111,8 @@ def build_model(spec, data, random_state=None):
         ws = opts.pop('weights_seed')
         if ws is not None and opts.get('sample_size') is None:
             opts['weights'] = np.random.RandomState(ws).uniform(0.05, 1.0, size=len(data)) ** 3
+            if ws % 2:
+                opts['weights'] = opts['weights'].tolist()       # a plain list is as good as an array
     if cls == 'Univariate':
         if 'candidate_instances' in opts:
             opts['candidates'] = [M.uni_class(c['cls'])(**c['opts']) for c in opts.pop('candidate_instances')]
